@@ -132,7 +132,14 @@ func viewOf(s stats.Server) snapView {
 	for _, u := range s.Users {
 		v.Users = append(v.Users, userView{u.Name, figOf(u.Traffic)})
 	}
+	sortUsers(v.Users)
 	return v
+}
+
+// sortUsers: the order of the user list is not part of C14 (the code sorts it; a map order would do as well):
+// canonicalise before comparing. A user listed twice stays visible (adjacent equal names).
+func sortUsers(us []userView) {
+	sort.SliceStable(us, func(i, j int) bool { return us[i].Name < us[j].Name })
 }
 
 // ---- JSON bodies: rendered from the keys actually present (sorted), and read back through the
@@ -234,8 +241,10 @@ func renderStats(status int, body string) (line string, v snapView, err error) {
 				v.Users = append(v.Users, userView{name, f})
 			}
 		}
+		sort.Strings(us)
 		line += " " + k + "=[" + strings.Join(us, ";") + "]"
 	}
+	sortUsers(v.Users)
 	if _, ok := m["users"]; !ok && err == nil {
 		err = fmt.Errorf("no \"users\" member")
 	}
